@@ -203,6 +203,20 @@ func genWorld(r *kit.Rand, stream string) *world {
 	} else {
 		w.Inst = pick(r, "IRunning", "IGone")
 	}
+	if nn > 0 && stream != "launch" && r.Chance(14, 100) {
+		// a duplicate NodeClaim for the same provider id
+		w.Twin = &wClaim{Managed: true, Fin: !r.Chance(10, 100), Pid: !r.Chance(15, 100), Reg: r.Bool()}
+		if r.Chance(20, 100) && w.Twin.Fin {
+			w.Twin.Del = i64(w.Now - 10)
+		}
+		if r.Chance(30, 100) {
+			w.Twin.Annot, w.Twin.AnnotAt = "at", w.Now+int64(pick(r, -5, 5))
+		}
+		if r.Chance(40, 100) { // the duplicate is the only claim left
+			w.Claim = nil
+			w.Inst = pick(r, "IRunning", "IRunning", "IShutting", "IGone")
+		}
+	}
 	if nn > 0 {
 		for k := r.Intn(4); k > 0; k-- {
 			p := &wPod{ID: int64(len(w.Pods)), Node: int64(r.Intn(nn)), Terminal: r.Chance(12, 100), Tol: r.Chance(20, 100), Static: r.Chance(10, 100)}
@@ -275,13 +289,36 @@ func genFault(r *kit.Rand, w *world, ctrl string) *fault {
 // ------------------------------------------------------------------ environment ops on the harness world
 
 type opx struct {
-	g    string // Gallina op
-	kind string
-	ctrl string // "node" | "claim" | ""
-	id   int64
-	f    *fault
-	env  func(w *world)
+	g          string // Gallina op
+	kind       string
+	ctrl       string // "node" | "claim" | ""
+	id         int64
+	f          *fault
+	env        func(w *world)
+	staleNode  *wNode
+	staleClaim *wClaim
 }
+
+// older versions of the objects (the version before the last change), for reconciles from a lagging cache
+type versions struct {
+	node  map[int64]*wNode
+	claim *wClaim
+}
+
+func (v *versions) record(before, after *world) {
+	for _, n := range before.Nodes {
+		if m := after.node(n.ID); m == nil || *m != *n {
+			c := *n
+			v.node[n.ID] = &c
+		}
+	}
+	if before.Claim != nil && (after.Claim == nil || !claimEq(before.Claim, after.Claim)) {
+		c := *before.Claim
+		v.claim = &c
+	}
+}
+
+func claimEq(a, b *wClaim) bool { return a.g() == b.g() }
 
 func apiDelNode(w *world, i int64) {
 	n := w.node(i)
@@ -366,6 +403,12 @@ func envOp(r *kit.Rand, w *world, kind string) *opx {
 			}
 			w.VAs = out
 		}}
+	case "instshut":
+		return &opx{g: "EnvInstShutting", kind: kind, env: func(w *world) {
+			if w.Inst == "IRunning" {
+				w.Inst = "IShutting"
+			}
+		}}
 	case "instgone":
 		return &opx{g: "EnvInstGone", kind: kind, env: func(w *world) {
 			if w.Inst != "INone" {
@@ -424,7 +467,46 @@ func waitingPod(w *world, p *wPod) bool {
 }
 
 // nextOp chooses the next op from the current world: half of the time something that moves the protocol forward.
-func nextOp(r *kit.Rand, w *world, faultsLeft *int, reconcilesLeft int) *opx {
+func nextOp(r *kit.Rand, w *world, faultsLeft *int, reconcilesLeft int, vs *versions) *opx {
+	// a reconcile that is handed the version before the last change (lagging cache); more often when that version
+	// is cordoned already (its reconcile gets past the optimistic-lock taint patch)
+	staleChance := 9
+	for _, old := range vs.node {
+		if cur := w.node(old.ID); cur != nil && *cur != *old && old.Del && old.Fin && old.Taint && old.Lbl {
+			staleChance = 30
+		}
+	}
+	if r.Chance(staleChance, 100) {
+		var o *opx
+		if r.Bool() && vs.claim != nil && vs.claim.Del != nil && (w.Claim == nil || !claimEq(vs.claim, w.Claim)) {
+			o = &opx{kind: "reconcile-claim-stale", ctrl: "claim", staleClaim: vs.claim}
+		} else {
+			for _, id := range []int64{0, 1} {
+				if old := vs.node[id]; old != nil && (w.node(id) == nil || *w.node(id) != *old) {
+					o = &opx{kind: "reconcile-node-stale", ctrl: "node", id: id, staleNode: old}
+					break
+				}
+			}
+		}
+		if o != nil {
+			if *faultsLeft > 0 && r.Chance(1, 3) {
+				o.f = genFault(r, w, o.ctrl)
+				if o.ctrl == "claim" {
+					o.f = &fault{Site: pick(r, finSites...), Kind: pick(r, kinds...)}
+					if o.f.Site == "SListNodes" || o.f.Site == "SProvDelete" {
+						o.f.Kind = "KServer"
+					}
+				}
+				*faultsLeft--
+			}
+			if o.staleNode != nil {
+				o.g = fmt.Sprintf("RNodeStale (%s) %s", o.staleNode.g(), o.f.g())
+			} else {
+				o.g = fmt.Sprintf("RClaimStale (%s) %s", o.staleClaim.g(), o.f.g())
+			}
+			return o
+		}
+	}
 	recon := func(ctrl string, id int64) *opx {
 		o := &opx{kind: "reconcile-" + ctrl, ctrl: ctrl, id: id}
 		if *faultsLeft > 0 && r.Chance(1, max(1, reconcilesLeft/2)) {
@@ -492,7 +574,7 @@ func nextOp(r *kit.Rand, w *world, faultsLeft *int, reconcilesLeft int) *opx {
 				return o
 			}
 		default:
-			k := pick(r, "tick", "tick", "tick", "podgone", "podterm", "podterminal", "podadd", "vagone", "instgone", "ready", "ready",
+			k := pick(r, "tick", "tick", "tick", "podgone", "podterm", "podterminal", "podadd", "podadd", "vagone", "instgone", "instshut", "ready", "ready", "ready",
 				"delnode", "delclaim", "register", "restart", "restart")
 			if o := envOp(r, w, k); o != nil {
 				return o
@@ -518,6 +600,7 @@ func (rn *runner) history(stream string, r *kit.Rand) {
 		faults = r.Intn(3)
 	}
 	var gsteps []string
+	vs := &versions{node: map[int64]*wNode{}}
 	cj := caseJSON{Stream: stream, W0: w0}
 	for _, p := range w.Pods {
 		if p.Grace != nil {
@@ -563,11 +646,13 @@ func (rn *runner) history(stream string, r *kit.Rand) {
 			}
 			o.g = fmt.Sprintf("RNode 0 %s", o.f.g())
 		} else {
-			o = nextOp(r, w, &faults, n-k)
+			o = nextOp(r, w, &faults, n-k, vs)
 		}
 		sj := stepJSON{Op: o.g}
 		if o.ctrl == "" {
+			before := w.clone()
 			o.env(w)
+			vs.record(before, w)
 			if o.kind == "restart" {
 				rn.s.restart()
 			}
@@ -577,9 +662,11 @@ func (rn *runner) history(stream string, r *kit.Rand) {
 			cj.Steps = append(cj.Steps, sj)
 			continue
 		}
-		out := rn.s.reconcile(w, o.ctrl, o.id, o.f)
+		out := rn.s.reconcile(w, o.ctrl, o.id, o.f, o.staleNode, o.staleClaim)
 		path := o.ctrl
-		if o.ctrl == "claim" && w.Claim != nil {
+		if o.staleNode != nil || o.staleClaim != nil {
+			path += "-stale"
+		} else if o.ctrl == "claim" && w.Claim != nil {
 			path = map[bool]string{true: "claim-finalize", false: "claim-launch"}[w.Claim.Del != nil]
 		}
 		c.Count("op:reconcile-" + path)
@@ -610,6 +697,7 @@ func (rn *runner) history(stream string, r *kit.Rand) {
 			sj.Instants = append(sj.Instants, in.target+" @ "+in.w.g())
 			rn.classifyInstant(w, in, &cj)
 		}
+		vs.record(w, out.post)
 		before := w.g()
 		if w.Claim != nil && out.post.Claim == nil && !instAbsent(out.post.Inst) {
 			c.Count("observed:claim-gone-instance-exists")
@@ -653,7 +741,13 @@ func (rn *runner) classifyInstant(pre *world, in instantObs, cj *caseJSON) {
 		}
 		return
 	}
-	hasClaim := pre.Claim != nil && pre.Claim.Pid
+	mainVis, twinVis := pre.Claim != nil && pre.Claim.Pid, pre.Twin != nil && pre.Twin.Pid
+	hasClaim := mainVis != twinVis
+	if mainVis && twinVis {
+		c.Count("finalizer:node:duplicate-claims")
+	} else if twinVis {
+		c.Count("finalizer:node:only-the-duplicate-left")
+	}
 	var id int64
 	fmt.Sscanf(in.target, "TNode %d", &id)
 	n := in.w.node(id)
